@@ -137,6 +137,18 @@ Section Perp.
               | apply Qle_shift_div_r; lra | apply Qlt_shift_div_r; lra ].
   Qed.
 
+  (* once both ends are known the search is a bisection: beta is the midpoint and the width halves *)
+  Theorem bisection_halves : forall lp ev beta a b,
+    beta == (a + b) / 2 ->
+    let '(beta', mi, ma) := next lp ev (beta, Some a, Some b) in
+    exists a' b', mi = Some a' /\ ma = Some b' /\ b' - a' == (b - a) / 2 /\ beta' == (a' + b') / 2.
+  Proof.
+    intros lp ev beta a b Hb. unfold next. destruct (Qltb 0 (e_H ev - lp)).
+    - exists beta, b. split; [reflexivity|]. split; [reflexivity|]. split; [rewrite Hb; field | reflexivity].
+    - exists a, beta. split; [reflexivity|]. split; [reflexivity|]. split; [rewrite Hb; field|].
+      field.
+  Qed.
+
   (* ---------- sums ---------- *)
   Definition qsum (l : list Q) : Q := fold_right Qplus 0 l.
 
